@@ -47,6 +47,8 @@ type wiring struct {
 	mu    sync.Mutex
 	log   []emitted
 	phase string
+	// keep: fresh() re-uses the adapter objects of parties that already have one (a long-lived instance serving session after session)
+	keep bool
 	// route decides what reaches whom for an emitted message; default: genuine delivery
 	route func(e emitted, deliver deliverFn)
 }
@@ -59,9 +61,15 @@ func newWiring(kind string, ids []uint16, thr int) *wiring {
 func (w *wiring) fresh(phase string, members []uint16, shares map[uint16][]byte) error {
 	w.mu.Lock()
 	w.phase = phase
+	old := w.parts
 	w.parts = map[uint16]adapter{}
 	w.mu.Unlock()
 	for _, id := range members {
+		if w.keep && old[id] != nil {
+			// the same adapter object serves the next session (Init is called on it again)
+			w.parts[id] = old[id]
+			continue
+		}
 		w.parts[id] = newAdapter(w.kind, id)
 	}
 	for _, id := range members {
